@@ -207,6 +207,57 @@ theorem eintr_transparent (orc : Oracle) (i B : Nat) (hb : ∀ j, i ≤ j → (o
   · rw [ersatzPRead_eq]; exact ok_of _ _ src _ off (by intro e; simp) hsrc
   · rw [ersatzPRead_eq]; exact take_of _ _ src _ off (by intro e; simp) hsrc
 
+/-- **EINTR transparency, insertion form** (covers the failing runs too): for every oracle, insert one
+`eintr` answer before any call `k ≥ i` of a finished run (one more unit of fuel).  The bytes moved
+and the bytes left are unchanged for all five loops; the result is unchanged for
+ReadOrThrow / ReadOrEOF / ErsatzPRead / ErsatzPWrite; for WriteOrThrow it is unchanged *except* in
+exactly one case, which the real code exhibits (found by the correspondence run): if the call
+right after the inserted EINTR returns 0, the exception carries errno `EINTR` (4) instead of the
+errno state `e` it would have carried — still an exception, never a success. -/
+theorem eintr_insertion (orc : Oracle) (k fuel i : Nat) (hik : i ≤ k) (data src : Bytes) (amount off : Nat) :
+    ((writeOrThrow orc fuel i data).res ≠ .fuel →
+      (writeOrThrow (insertAt orc k .eintr) (fuel + 1) i data).moved = (writeOrThrow orc fuel i data).moved ∧
+      (writeOrThrow (insertAt orc k .eintr) (fuel + 1) i data).rest = (writeOrThrow orc fuel i data).rest ∧
+      ((writeOrThrow (insertAt orc k .eintr) (fuel + 1) i data).res = (writeOrThrow orc fuel i data).res ∨
+       ∃ e, (writeOrThrow orc fuel i data).res = .errno e ∧
+            (writeOrThrow (insertAt orc k .eintr) (fuel + 1) i data).res = .errno kEINTR)) ∧
+    ((ersatzPWrite orc fuel i data off).res ≠ .fuel →
+      (ersatzPWrite (insertAt orc k .eintr) (fuel + 1) i data off).moved = (ersatzPWrite orc fuel i data off).moved ∧
+      (ersatzPWrite (insertAt orc k .eintr) (fuel + 1) i data off).res = (ersatzPWrite orc fuel i data off).res) ∧
+    ((readOrThrow orc fuel i src amount).res ≠ .fuel →
+      (readOrThrow (insertAt orc k .eintr) (fuel + 1) i src amount).moved = (readOrThrow orc fuel i src amount).moved ∧
+      (readOrThrow (insertAt orc k .eintr) (fuel + 1) i src amount).res = (readOrThrow orc fuel i src amount).res) ∧
+    ((readOrEOF orc fuel i src amount).res ≠ .fuel →
+      (readOrEOF (insertAt orc k .eintr) (fuel + 1) i src amount).moved = (readOrEOF orc fuel i src amount).moved ∧
+      (readOrEOF (insertAt orc k .eintr) (fuel + 1) i src amount).res = (readOrEOF orc fuel i src amount).res) ∧
+    ((ersatzPRead orc fuel i src amount off).res ≠ .fuel →
+      (ersatzPRead (insertAt orc k .eintr) (fuel + 1) i src amount off).moved = (ersatzPRead orc fuel i src amount off).moved ∧
+      (ersatzPRead (insertAt orc k .eintr) (fuel + 1) i src amount off).res = (ersatzPRead orc fuel i src amount off).res) := by
+  have const : ∀ (z : Res) (posn : Bool) (s : Bytes) (a o : Nat),
+      (xfer (fun _ => z) posn orc fuel i s a o 0).res ≠ .fuel →
+      (xfer (fun _ => z) posn (insertAt orc k .eintr) (fuel + 1) i s a o 0).moved = (xfer (fun _ => z) posn orc fuel i s a o 0).moved ∧
+      (xfer (fun _ => z) posn (insertAt orc k .eintr) (fuel + 1) i s a o 0).res = (xfer (fun _ => z) posn orc fuel i s a o 0).res := by
+    intro z posn s a o h
+    have := xfer_insert_eintr (fun _ => z) posn orc k fuel i s a o 0 hik h
+    refine ⟨this.1, ?_⟩
+    rcases this.2.2 with h1 | ⟨e, h1, h2⟩
+    · exact h1
+    · rw [h1, h2]
+  refine ⟨?_, ?_, ?_, ?_, ?_⟩
+  · intro h
+    rw [writeOrThrow_eq] at h
+    simp only [writeOrThrow_eq]
+    exact xfer_insert_eintr (fun e => .errno e) false orc k fuel i data data.length 0 0 hik h
+  · intro h; rw [ersatzPWrite_eq] at h; simp only [ersatzPWrite_eq]; exact const _ _ _ _ _ h
+  · intro h; rw [readOrThrow_eq] at h; simp only [readOrThrow_eq]; exact const _ _ _ _ _ h
+  · intro h; rw [readOrEOF_eq] at h; simp only [readOrEOF_eq]; exact const _ _ _ _ _ h
+  · intro h; rw [ersatzPRead_eq] at h; simp only [ersatzPRead_eq]; exact const _ _ _ _ _ h
+
+/-- the caveat is real: `[k0]` throws errno 0, `[eintr, k0]` throws errno 4 (as util::WriteOrThrow does) -/
+example : (writeOrThrow (scripted [.ok 0]) 5 0 [1, 2]).res = .errno 0 ∧
+    (writeOrThrow (insertAt (scripted [.ok 0]) 0 .eintr) 6 0 [1, 2]).res = .errno 4 ∧
+    (writeOrThrow (insertAt (scripted [.ok 1, .err 28]) 1 .eintr) 6 0 [1, 2]).res = .errno 28 := by decide
+
 /-- an oracle satisfying the hypotheses of `eintr_transparent` non-trivially -/
 example : (∀ j, 0 ≤ j → ((scripted [.eintr, .ok 1, .eintr, .eintr, .ok 3]) j).benign) := by
   intro j _
